@@ -228,14 +228,23 @@ class History:
             self.add(self.new_state())
             self.hist.append('new')
         elif op == 'zeroq':
-            o = self.pool[int(rng.integers(0, len(self.pool)))]
-            c = copy.deepcopy(o.obj)
-            r = c.zero_qnumbers()
-            self.hist.append(f'zeroq-{o.kind}')
-            ctx.ok('step.zero_qnumbers-chains', r is c, 'zero_qnumbers must return the object', detail)
-            n = Obj(o.kind, c, None if o.shadow is None else o.shadow.copy(), '0')
-            n.hermitian = getattr(o, 'hermitian', True)
-            self.add(n)
+            k = int(rng.integers(0, len(self.pool)))
+            o = self.pool[k]
+            if k >= 2 and rng.random() < 0.5:
+                # in place on a live pool object (a sum, a product, an evolved state ...): every OTHER object must stay what it was
+                # (labels shared between a result and its operands would be zeroed along)
+                r = o.obj.zero_qnumbers()
+                self.hist.append(f'zeroq-inplace-{o.kind}')
+                ctx.ok('step.zero_qnumbers-chains', r is o.obj, 'zero_qnumbers must return the object', detail)
+                o.universe = '0'
+            else:
+                c = copy.deepcopy(o.obj)
+                r = c.zero_qnumbers()
+                self.hist.append(f'zeroq-{o.kind}')
+                ctx.ok('step.zero_qnumbers-chains', r is c, 'zero_qnumbers must return the object', detail)
+                n = Obj(o.kind, c, None if o.shadow is None else o.shadow.copy(), '0')
+                n.hermitian = getattr(o, 'hermitian', True)
+                self.add(n)
         elif op == 'mpo-arith':
             a = self.pick('mpo')
             cands = [o for o in self.pool if o.kind == 'mpo' and o.universe == a.universe and np.array_equal(o.obj.qd, a.obj.qd)]
@@ -269,13 +278,18 @@ class History:
                 ctx.close('step.orthonormalize-factor', abs(float(nrm) - np.linalg.norm(o.shadow)), 1e-9 * max(1, np.linalg.norm(o.shadow)), 'MPO factor != Frobenius norm', detail)
                 o.shadow = o.shadow / float(nrm) if nz and nrm > 0 else refs.dense_operator(o.obj.A)
         elif op == 'mpo-new':
-            which = str(rng.choice(['model', 'identity', 'opgraph', 'fill']))
+            which = str(rng.choice(['model', 'identity', 'opgraph', 'fill', 'charged-boundary']))
             if which == 'model' or (which == 'opgraph' and self.name != 'xxz'):
                 r = gen.model(self.name, self.L, gen.generic_params(rng))
                 herm = True
             elif which == 'identity':
                 r = ptn.MPO.identity(self.qd, self.L, dtype=complex if rng.random() < 0.5 else float)
                 herm = True
+            elif which == 'charged-boundary':
+                # operator with NON-ZERO quantum numbers on its dummy boundary bonds (like linear_fermionic_mpo), charge changing
+                diffs = np.unique(np.subtract.outer(self.qd, self.qd))
+                r = gen.rand_mpo(rng, self.qd, self.L, Dmax=2, kind='complex', boundary=(int(rng.choice(diffs)), int(rng.choice(diffs))))
+                herm = False
             elif which == 'fill':
                 # the documented scalar-fill constructor (dummy boundary bonds with charge 0)
                 qD = gen.mpo_qD(rng, self.qd, self.L, 3, 'unsorted', (0, 0))
@@ -392,6 +406,65 @@ def _any_allowed(obj, is_mpo):
     return False
 
 
+def label_mutation_case(ctx, idx, rng):
+    """Histories aimed at quantum-number LABELS shared between objects: operands with NON-ZERO charges on their boundary bonds (like
+    linear_fermionic_mpo or a charged sector state), a result (sum, difference, product, apply_operator), then zero_qnumbers() -- the library's in-place
+    label writer -- on ONE of them; every other object must still satisfy the invariant with unchanged labels and dense form, and stay usable."""
+    from .c01 import _qd
+    d = int(rng.choice([2, 3]))
+    L = int(rng.integers(1, 5))
+    qd = _qd(rng, d, str(rng.choice(['unsorted', 'sorted', 'pairs'])))
+    if not np.any(qd - qd[0]):
+        qd[0] = qd[0] + 1
+    diffs = np.unique(np.subtract.outer(qd, qd))
+    kind = ('mpo-add', 'mpo-sub', 'mpo-matmul', 'mps-add', 'mps-sub', 'apply')[idx % 6]
+    objs = {}
+    if kind.startswith('mpo'):
+        b = (int(rng.choice(diffs)) or int(diffs[-1]), int(rng.choice(diffs)) or int(diffs[0]))
+        X = gen.rand_mpo(rng, qd, L, Dmax=2, kind='complex', boundary=b)
+        Y = gen.rand_mpo(rng, qd, L, Dmax=2, kind='complex', boundary=b)
+        objs['X'], objs['Y'] = X, Y
+        objs['S'] = (X + Y) if kind == 'mpo-add' else ((X - Y) if kind == 'mpo-sub' else (X @ Y))
+    else:
+        q0 = int(rng.integers(1, 4)) * int(rng.choice([-1, 1]))
+        X = gen.rand_mps(rng, qd, L, 'random', Dmax=3, q0=q0)
+        Y = gen.rand_mps(rng, qd, L, 'random', Dmax=3, q0=q0, qL=int(X.qD[-1][0]))
+        objs['X'], objs['Y'] = X, Y
+        if kind == 'apply':
+            W = gen.rand_mpo(rng, qd, L, Dmax=2, kind='complex', boundary=(int(rng.choice(diffs)) or int(diffs[-1]), int(rng.choice(diffs)) or int(diffs[0])))
+            objs['W'] = W
+            objs['S'] = ptn.apply_operator(W, X)
+        else:
+            objs['S'] = (X + Y) if kind == 'mps-add' else (X - Y)
+    is_mpo = {k: isinstance(v, ptn.MPO) for k, v in objs.items()}
+    dense = {k: (refs.dense_operator(v.A) if is_mpo[k] else refs.dense_state(v.A)) for k, v in objs.items()}
+    labels = {k: [np.array(q, copy=True) for q in v.qD] for k, v in objs.items()}
+    victim = str(rng.choice(sorted(objs)))
+    ctx.case(('label-mutation', kind, f'L{L}', f'd{d}', 'zero_qnumbers-on-' + victim), sample={'kind': kind, 'L': L, 'qd': qd, 'boundary_labels': {k: [v.qD[0].tolist(), v.qD[-1].tolist()] for k, v in objs.items()}})
+    detail = {'kind': kind, 'L': L, 'qd': qd, 'zero_qnumbers_on': victim, 'qD': {k: labels[k] for k in objs}}
+    r = objs[victim].zero_qnumbers()
+    ctx.ok('labels.zero_qnumbers-returns-self', r is objs[victim], 'zero_qnumbers must return the object', detail)
+    for k, v in objs.items():
+        inv = refs.mpo_invariant(v) if is_mpo[k] else refs.mps_invariant(v)
+        if not ctx.ok('labels.class-invariant-of-every-object', inv is None, f'after {kind} and zero_qnumbers() on {victim}: object {k}: {inv}', detail):
+            return
+        if k != victim:
+            ctx.ok('labels.other-objects-keep-their-labels', all(np.array_equal(a, b) for a, b in zip(v.qD, labels[k])) and (k == victim or np.array_equal(v.qd, qd)),
+                   f'zero_qnumbers() on {victim} changed the quantum numbers of {k}', detail)
+        now = refs.dense_operator(v.A) if is_mpo[k] else refs.dense_state(v.A)
+        ctx.close('labels.dense-form-unchanged', float(np.linalg.norm(now - dense[k])), 1e-12 * max(1.0, float(np.linalg.norm(dense[k]))), f'dense form of {k} changed', detail)
+    # everything stays usable
+    try:
+        for k, v in objs.items():
+            if float(np.linalg.norm(dense[k])) > 1e-8 * tensor_scale(v):
+                v.orthonormalize(str(rng.choice(['left', 'right'])))
+                inv = refs.mpo_invariant(v) if is_mpo[k] else refs.mps_invariant(v)
+                ctx.ok('labels.class-invariant-of-every-object', inv is None, f'after orthonormalize of {k}: {inv}', detail)
+    except AssertionError as e:
+        import traceback
+        ctx.fail('labels.objects-stay-usable', f'an internal assertion failed when {k} was orthonormalised after zero_qnumbers() on {victim}: {e}', dict(detail, traceback=traceback.format_exc(limit=5)))
+
+
 def soak_case(ctx, idx, rng):
     """The repository's own tests under the class invariant: every MPS/MPO returned or updated by a public operation is inspected."""
     from .. import soak
@@ -448,6 +521,7 @@ SPEC = {
     'workloads': [
         Workload('histories', history_case, quick=600, thorough=36000),
         Workload('constructors', constructor_case, quick=420, thorough=42000),
+        Workload('label-mutation', label_mutation_case, quick=360, thorough=36000),
         Workload('suite-soak', soak_case, quick=0, thorough=1, shardable=False),
     ],
     'shards': {'quick': 4, 'thorough': 16},
